@@ -182,7 +182,8 @@ type c20Ev struct {
 // decodes stored values generically on change and remove events and in Value(), so
 // integers beyond 2^53 are rounded by the unchanged code as well (seeded change C20-f,
 // which extends that rounding to add events, is therefore outside the domain).
-var c20Vals = []interface{}{"s", "t", 1.0, 2.5, true, nil, map[string]interface{}{"rid": "svc.r.x"}, map[string]interface{}{"data": []interface{}{1.0, "a"}}}
+var c20Vals = []interface{}{"s", "t", 1.0, 2.5, true, nil, "1", "2.5", "true", "<nil>", "1", 1.0, "true", true, // same spelling, different JSON type
+	map[string]interface{}{"rid": "svc.r.x"}, map[string]interface{}{"data": []interface{}{1.0, "a"}}}
 
 func c20RandEvent(r *rand.Rand, cfg c20Cfg) c20Ev {
 	if cfg.Type == "model" {
